@@ -79,11 +79,11 @@ def units(tier, seed):
     us.append(('heterolists', 3 if tier == 'quick' else 4))
     us.append(('mixedmaps', 0))
     us.append(('mixedmaps', 1))
-    for i in range(2 if tier == 'quick' else 16):
+    for i in range(2 if tier == 'quick' else 32):
         us.append(('soak', i, 40 if tier == 'quick' else 300))
     us.append(('rangeexpr',))
     us.append(('chained',))
-    for i in range(12 if tier == 'quick' else 48):
+    for i in range(12 if tier == 'quick' else 480):
         us.append(('random', i))
     return us
 
